@@ -218,6 +218,39 @@ theorem C12_in_window (ctx : Bytes) (s : St) : opOk (request true ctx s).2 := by
     rw [List.getLast?_append]
     simp [sendWith_discover]
 
+/-- a discovery exchange that takes no time is the ordinary request -/
+theorem C12_slow_zero (auth : Bool) (ctx : Bytes) (s : St) : requestSlow 0 auth ctx s = request auth ctx s := by
+  have ht : tick 0 s = s := by cases s; simp [tick]
+  unfold requestSlow
+  cases hd : s.disco with
+  | none => simp only [ht]
+  | some c => simp only [ht, request, hd, List.nil_append]
+
+/-- **Time passing during the discovery exchange.**  However long the probe takes to reach the
+    engine (`lat` ticks: a slow path, retransmissions) and whatever the state before, a request by
+    an authenticated user still ends with a request inside the engine's window: the time stamp of
+    the discovery data is read when the Report has arrived, so the cached engine time is the
+    engine's time at that very instant (seeded change C05-42 moved the stamp in front of the
+    exchange). -/
+theorem C12_slow_discovery_in_window (lat : Nat) (ctx : Bytes) (s : St) : opOk (requestSlow lat true ctx s).2 := by
+  unfold requestSlow
+  cases hd : s.disco with
+  | none => exact C12_in_window ctx (tick lat s)
+  | some c =>
+    simp only [Bool.true_and]
+    cases hiw : (sendWith s.agent s.now ctx c).2
+    · -- outside the window: re-discovery (slow), then a request with fresh data
+      have h2 := sendWith_discover (tick lat s) ctx
+      simp only [Bool.not_false, ↓reduceIte]
+      refine ⟨s.agent.engineId, (if ctx == [] then s.agent.engineId else ctx), s.agent.boots, (tick lat s).agent.time (tick lat s).now, ?_⟩
+      have hag : (tick lat s).agent = s.agent := rfl
+      rw [hag] at h2 ⊢
+      simp [h2]
+    · simp only [Bool.not_true, Bool.false_eq_true, ↓reduceIte]
+      refine ⟨c.engineId, (if ctx == [] then c.engineId else ctx), c.boots, c.time + (s.now - c.stamp) / 10, ?_⟩
+      simp only [List.getLast?_singleton, Option.some.injEq]
+      simpa [sendWith] using hiw
+
 /-- … in particular after every history starting from a fresh client -/
 theorem C12_in_window_after_any_history (ctx eid : Bytes) (boots start : Nat) (evs : List Ev) :
     opOk (request true ctx (run true ctx (init eid boots start) evs).1).2 :=
